@@ -21,7 +21,8 @@ RULE = ("bit arrays / DNA strings of the widths above in the classes all-zero, a
         "0, 1, 2^L-1 (4^L-1), random below capacity: number_to_bit(bit_to_number(b), len(b)) == b, number_to_dna(dna_to_number(s)"
         ", len(s)) == s, is_string=True and False give the same value, number_to_bit(x, L) / number_to_dna(x, L) for x below "
         "capacity convert back to x and are left-padded with 0 / A. Contracts: each function's result equals the int oracle. "
-        "Non-trivial: width >= 20 (multi-digit carries in the string path); distinct = hash of the case.")
+        "Non-trivial: width >= 20 (multi-digit carries in the string path); distinct = hash of the case."
+        ' Also: widths 15-17, 26-27, 52-54, 127-129 and random 0..200, bit / DNA strings whose prefix value is a limb number, values beyond 640 decimal digits under the int<->str trap, and number_to_bit repeated after its result was scrambled.')
 
 WIDTHS = [0, 1, 2, 7, 8, 9, 15, 16, 17, 26, 27, 31, 32, 33, 52, 53, 54, 63, 64, 65, 100, 127, 128, 129, 257]
 
